@@ -53,12 +53,26 @@ INDEX_EVENTS_TABLE_ENDTIME = """
 """
 
 
+EPOCH = datetime(1970, 1, 1, tzinfo=timezone.utc)
+MICROSECOND = timedelta(microseconds=1)
+
+
+def _event_to_microseconds(event: Event):
+    """
+    Start and end of an event as whole microseconds since the epoch.
+    Computed with integers: float seconds cannot hold microseconds for dates after 2038.
+    """
+    starttime = (event.timestamp - EPOCH) // MICROSECOND
+    endtime = starttime + event.duration // MICROSECOND
+    return starttime, endtime
+
+
 def _rows_to_events(rows: Iterable) -> List[Event]:
     events = []
     for row in rows:
         eid = row[0]
-        starttime = datetime.fromtimestamp(row[1] / 1000000, timezone.utc)
-        endtime = datetime.fromtimestamp(row[2] / 1000000, timezone.utc)
+        starttime = EPOCH + timedelta(microseconds=row[1])
+        endtime = EPOCH + timedelta(microseconds=row[2])
         duration = endtime - starttime
         data = json.loads(row[3])
         events.append(Event(id=eid, timestamp=starttime, duration=duration, data=data))
@@ -236,8 +250,7 @@ class SqliteStorage(AbstractStorage):
 
     def insert_one(self, bucket_id: str, event: Event) -> Event:
         c = self.conn.cursor()
-        starttime = event.timestamp.timestamp() * 1000000
-        endtime = starttime + (event.duration.total_seconds() * 1000000)
+        starttime, endtime = _event_to_microseconds(event)
         datastr = json.dumps(event.data)
         c.execute(
             "INSERT INTO events(bucketrow, starttime, endtime, datastr) "
@@ -263,8 +276,7 @@ class SqliteStorage(AbstractStorage):
         events_insert = [e for e in events if e.id is None]
         event_rows = []
         for event in events_insert:
-            starttime = event.timestamp.timestamp() * 1000000
-            endtime = starttime + (event.duration.total_seconds() * 1000000)
+            starttime, endtime = _event_to_microseconds(event)
             datastr = json.dumps(event.data)
             event_rows.append((bucket_id, starttime, endtime, datastr))
         query = (
@@ -275,8 +287,7 @@ class SqliteStorage(AbstractStorage):
         self.conditional_commit(len(event_rows))
 
     def replace_last(self, bucket_id, event):
-        starttime = event.timestamp.timestamp() * 1000000
-        endtime = starttime + (event.duration.total_seconds() * 1000000)
+        starttime, endtime = _event_to_microseconds(event)
         datastr = json.dumps(event.data)
         query = """UPDATE events
                    SET starttime = ?, endtime = ?, datastr = ?
@@ -298,8 +309,7 @@ class SqliteStorage(AbstractStorage):
         return cursor.rowcount == 1
 
     def replace(self, bucket_id, event_id, event) -> bool:
-        starttime = event.timestamp.timestamp() * 1000000
-        endtime = starttime + (event.duration.total_seconds() * 1000000)
+        starttime, endtime = _event_to_microseconds(event)
         datastr = json.dumps(event.data)
         query = """UPDATE events
                      SET starttime = ?,
